@@ -1,6 +1,7 @@
 """C02 - reported workflow status is truthful about the tasks."""
 from orquesta import statuses as S
 
+from vt.harness import kernels
 from vt.harness.common import history_body, ob
 from vt.monitors import C02Truth, OracleTracker
 
@@ -13,7 +14,7 @@ QUICK = ["D02", "D03", "D04", "D07", "D08", "D12"]
 
 
 def obligations(tier):
-    obs = []
+    obs = [kernels.e1("C02", "L1_succeeded_truthful", "L1_succeeded_truthful", timeout=600), kernels.e1("C02", "L2_rest_means_dormant", "L2_rest_means_dormant", timeout=600), kernels.e1("C02", "L3_ing_means_active", "L3_ing_means_active", timeout=600), kernels.e1("C02", "L6_unhandled_failure_fails", "L6_unhandled_failure_fails", timeout=600)]
     for did in QUICK:
         obs.append(ob("C02", "e2c." + did, "vt.harness.C02:lifecycle",
                       {"did": did, "steps": 5, "control": "either", "bits": True}, timeout=600))
